@@ -103,9 +103,10 @@ theorem termCheck_props {G : Grammar} {A : Automaton} {N : Nat} (h : termCheck G
   simp only [termCheck, List.all_eq_true, List.mem_range, Bool.and_eq_true, bne_iff_ne, ne_eq] at h
   exact ⟨fun s hs => (h la hla s hs).1, fun s b hs hb => (h la hla s hs).2 b hb⟩
 
-/-- **The LR driver terminates.** On an automaton that passes `check` and whose local reduction
-runs all end (`termCheck`), every parse of every input ends with some amount of fuel. -/
-theorem run_total {G : Grammar} {A : Automaton} (P : Props G A) {N : Nat} (ht : termCheck G A N = true)
+/-- from termination of `feed` on the stacks that are paths to termination of the driver: an input of
+`n` lexemes needs at most `n + 1` runs of `feed`, because a certified table never shifts end-of-input -/
+theorem run_total_of_feed {G : Grammar} {A : Automaton} (P : Props G A)
+    (hfeed : ∀ la, la < G.ntoks → ∀ stack labels, Path A stack labels → ∃ fuel, feed G A la fuel stack ≠ .fuelOut)
     {w : List Nat} (hw : InputOk G w) :
     ∀ (k : Nat) (c : Cfg), Inv G A w c → w.length - c.laidx ≤ k → ∃ fuel, run G A w fuel c ≠ .fuelOut := by
   intro k
@@ -114,9 +115,7 @@ theorem run_total {G : Grammar} {A : Automaton} (P : Props G A) {N : Nat} (ht : 
     intro c hinv hk
     obtain ⟨ps, as, la⟩ := c
     have hla : nextTok G w la < G.ntoks := nextTok_lt hw P.wf la
-    obtain ⟨H1, H2⟩ := termCheck_props ht _ hla
-    have hr : ∀ x ∈ ps, x < A.nstates := hinv.path.states_lt P
-    obtain ⟨fuel, hf⟩ := feed_total G A _ N A.nstates (gotoInRange_of_props P _ hla) H1 H2 ps.length ps (Nat.le_refl _) hr
+    obtain ⟨fuel, hf⟩ := hfeed _ hla ps _ hinv.path
     rcases feed_lr G A w fuel ps as la hf with ⟨c', hs, hl⟩ | ⟨c', o, hs, hd⟩
     · have hinv' := steps_inv P hw hs hinv
       have := hinv'.inRange
@@ -132,9 +131,7 @@ theorem run_total {G : Grammar} {A : Automaton} (P : Props G A) {N : Nat} (ht : 
     intro c hinv hk
     obtain ⟨ps, as, la⟩ := c
     have hla : nextTok G w la < G.ntoks := nextTok_lt hw P.wf la
-    obtain ⟨H1, H2⟩ := termCheck_props ht _ hla
-    have hr : ∀ x ∈ ps, x < A.nstates := hinv.path.states_lt P
-    obtain ⟨fuel, hf⟩ := feed_total G A _ N A.nstates (gotoInRange_of_props P _ hla) H1 H2 ps.length ps (Nat.le_refl _) hr
+    obtain ⟨fuel, hf⟩ := hfeed _ hla ps _ hinv.path
     rcases feed_lr G A w fuel ps as la hf with ⟨c', hs, hl⟩ | ⟨c', o, hs, hd⟩
     · have hinv' := steps_inv P hw hs hinv
       have hk' : w.length - c'.laidx ≤ k := by
@@ -149,5 +146,15 @@ theorem run_total {G : Grammar} {A : Automaton} (P : Props G A) {N : Nat} (ht : 
       rw [hf']
       simp only [run, hd]
       intro he; exact step_done_ne_fuelOut c' (by rw [hd, he])
+
+/-- all-pairs version (`termCheck`; subsumed by `run_total_adj` in `TermAdj.lean`) -/
+theorem run_total {G : Grammar} {A : Automaton} (P : Props G A) {N : Nat} (ht : termCheck G A N = true)
+    {w : List Nat} (hw : InputOk G w) :
+    ∀ (k : Nat) (c : Cfg), Inv G A w c → w.length - c.laidx ≤ k → ∃ fuel, run G A w fuel c ≠ .fuelOut := by
+  refine run_total_of_feed P ?_ hw
+  intro la hla stack labels hp
+  obtain ⟨H1, H2⟩ := termCheck_props ht la hla
+  exact feed_total G A la N A.nstates (gotoInRange_of_props P la hla) H1 H2 stack.length stack
+    (Nat.le_refl _) (hp.states_lt P)
 
 end GrmVerif.Term
